@@ -43,13 +43,22 @@ def snapshot(p, kind):
     return common
 
 
-def parse_stream(kind, data, cuts, nmsgs, close_at_end):
+def parse_stream(kind, data, cuts, nmsgs, close_at_end, dropped_before=False):
     """feed data in fragments cut at `cuts`; returns (list of per-message snapshots, leftover bytes, exception)"""
     buf = bytearray()
     if kind == "request":
         p = hserving.Requestant(msg=buf, remoter=DummyRemoter())
     else:
         p = hclienting.Respondent(msg=buf, method="GET")
+    if dropped_before:
+        # history: this parser already handled an ordinary exchange, was set up for the next one, and was told that the (idle)
+        # connection went away, as Client.service tells it on every pass while the connector is cut off; the connection is
+        # up again now
+        buf.extend(b"HTTP/1.1 200 OK\r\nContent-Length: 2\r\n\r\nok" if kind == "response" else b"GET /before HTTP/1.1\r\nHost: x\r\n\r\n")
+        p.parse()
+        assert p.ended and not p.errored and not buf, "history message did not parse"
+        p.makeParser()
+        p.close()
     results = []
     bounds = [0] + list(cuts) + [len(data)]
     exc = None
@@ -102,13 +111,16 @@ def run_case(tape, tier):
             break
     data = b"".join(msgs)
     cuts = httpgen.partition(tape, data, httpgen.interesting_points(data))
-    whole, left_w, exc_w = parse_stream(kind, data, [], len(msgs), close_needed)
-    frag, left_f, exc_f = parse_stream(kind, data, cuts, len(msgs), close_needed)
+    dropped_before = kind == "response" and tape.flag("dropped_while_idle_before", 1, 4)
+    if dropped_before:
+        res.faults["connection_dropped_while_idle_before"] += 1
+    whole, left_w, exc_w = parse_stream(kind, data, [], len(msgs), close_needed, dropped_before)
+    frag, left_f, exc_f = parse_stream(kind, data, cuts, len(msgs), close_needed, dropped_before)
     res.comparisons = len(whole) + 1
     res.steps = len(cuts) + 1
     res.sim_time = float(len(cuts) + 1)
-    res.scenario = lambda: dict(kind=kind, messages=descs, data=data.decode("latin1"), cuts=cuts)
-    res.scen_digest = digest(dict(d=data.decode("latin1"), c=cuts, k=kind))
+    res.scenario = lambda: dict(kind=kind, dropped_before=dropped_before, messages=descs, data=data.decode("latin1"), cuts=cuts)
+    res.scen_digest = digest(dict(d=data.decode("latin1"), c=cuts, k=kind, h=dropped_before))
     res.event_digest = digest(dict(w=repr(whole), f=repr(frag), lw=left_w.decode("latin1"), lf=left_f.decode("latin1")))
     if exc_w != exc_f:
         res.violate("fragmentation-exception", "whole feed: %s; fragmented feed (cuts %s): %s" % (exc_w, cuts[:12], exc_f))
